@@ -419,5 +419,61 @@ pub fn run(tier: Tier) -> i32 {
             ctx.scope_done(name, total as u64, t0, &format!("{} states, {} write edges + finish probes, none may panic", a.0, a.1));
         }
     }
+    // ------------------------------------------------------------------ (6) long inputs: megabytes through windows larger than 1 MiB,
+    // blocks far larger than their dictionary, truncations and single substitutions of them (nothing may panic or hang)
+    {
+        let name = "long-inputs";
+        if ctx.may_start(name) {
+            use crate::cases::SOp;
+            let t0 = Instant::now();
+            let mut items: Vec<(String, Case)> = Vec::new();
+            let dict = 0x18_0000u32;
+            let mut prog: Vec<Sym> = (0..600u32).map(|b| Sym::L(((b * 67 + b / 7 + 3) & 0xFF) as u8)).collect();
+            let mut produced = 600usize;
+            let total = 2 * dict as usize + 4321;
+            let mut k = 0u32;
+            while produced < total {
+                let l = (total - produced).min(273 - (k as usize * 13) % 100).max(2);
+                if total - produced >= 2 {
+                    prog.push(Sym::M(if k % 3 == 0 { (produced.min(dict as usize) as u32).saturating_sub(1 + (k * 97) % 500).max(1) } else { 1 + (k * 31) % 590 }, l as u32));
+                    produced += l;
+                } else {
+                    prog.push(Sym::L(k as u8));
+                    produced += 1;
+                }
+                k += 1;
+            }
+            let e = enc::encode(3, 0, 2, dict as u64, &prog);
+            let file = enc::lzma_file(3, 0, 2, dict, Some(e.expect.len() as u64), &e.payload);
+            let n = file.len();
+            for (what, bytes) in [("whole", file.clone()), ("cut in the middle", file[..n / 2].to_vec()), ("cut 3 bytes before the end", file[..n - 3].to_vec()), ("byte n/2 ^= 0x40", { let mut m = file.clone(); m[n / 2] ^= 0x40; m }), ("byte n-9 ^= 0x01", { let mut m = file.clone(); m[n - 9] ^= 0x01; m })] {
+                items.push((format!("lzma {} bytes through a {}-byte window, {}", e.expect.len(), dict, what), Case::Dec { fmt: Fmt::Lzma, opts: Opts::default(), input: Hex(bytes.clone()), rd: Rd::default(), sk: Sk::default() }));
+                let mut ops: Vec<SOp> = bytes.chunks(65536).map(|c| SOp::WriteAll(Hex(c.to_vec()))).collect();
+                ops.push(SOp::Finish);
+                items.push((format!("Stream, 64 KiB writes: lzma {} bytes through a {}-byte window, {}", e.expect.len(), dict, what), Case::Stream { opts: Opts::default(), sk: Sk::default(), ops }));
+            }
+            for (prop, nbytes) in [(0u8, 2_600_000usize), (16, 4_300_000)] {
+                let blob: Vec<u8> = (0..nbytes as u32).map(|k| (k.wrapping_mul(2246822519) >> 19) as u8).collect();
+                let mut cs: Vec<Chunk> = blob.chunks(65536).enumerate().map(|(k, c)| Chunk::U { reset: k == 0, data: c.to_vec() }).collect();
+                cs.push(Chunk::C { class: 2, props: (3, 0, 2), prog: vec![Sym::M(3, 50), Sym::L(7)] });
+                let w = lzma2::write(&cs);
+                items.push((format!("lzma2 {} bytes in {} chunks, one dictionary", w.expect.len(), cs.len()), Case::Dec { fmt: Fmt::Lzma2, opts: Opts::default(), input: Hex(w.bytes.clone()), rd: Rd::default(), sk: Sk::default() }));
+                let f = XzFile { check_id: 1, blocks: vec![xz::Block { payload: w.bytes.clone(), plain: w.expect.clone(), o_filters: Some(vec![(xz::mbi(0x21), xz::mbi(1), vec![prop])]), ..Default::default() }], ..Default::default() };
+                let xb = xz::build(&f).0;
+                items.push((format!("xz block of {} bytes, dictionary property byte {}", w.expect.len(), prop), Case::Dec { fmt: Fmt::Xz, opts: Opts::default(), input: Hex(xb.clone()), rd: Rd::default(), sk: Sk::default() }));
+                items.push((format!("xz block of {} bytes, dictionary property byte {}, cut 40 bytes before the end", w.expect.len(), prop), Case::Dec { fmt: Fmt::Xz, opts: Opts::default(), input: Hex(xb[..xb.len() - 40].to_vec()), rd: Rd::default(), sk: Sk::default() }));
+            }
+            par_for(items.len() as u64, |i| {
+                let (label, case) = &items[i as usize];
+                let o = run_case(case);
+                ctx.eval(1);
+                ctx.nontriv(1);
+                if o.v.is_panic() || o.ops.iter().any(|r| r.v.is_panic()) {
+                    ctx.violation(case, &format!("{}: returns Ok or Err, never panics", label), &o, None);
+                }
+            });
+            ctx.scope_done(name, items.len() as u64, t0, "megabyte-sized valid streams, truncated and corrupted variants");
+        }
+    }
     ctx.finish()
 }
